@@ -35,3 +35,35 @@ def load():
         raise HarnessError(f"robotools imported from {f}, expected under {PKG_PREFIX}")
     _rt = robotools
     return robotools
+
+
+_cached_functions = None
+
+
+def clear_function_caches():
+    """Empties every functools cache (lru_cache / cache wrappers) found in the modules of the system under test.
+
+    The k-th executed line of an operation is the coordinate of an injected interrupt; a memoised helper executes
+    fewer lines when its cache is warm, so without this the same recorded script would be interrupted at another
+    place on replay than during exploration. Emptying a functools cache never changes what a correct program
+    computes. Called at the start of every simulated run (Session construction)."""
+    global _cached_functions
+    if _cached_functions is None:
+        found = []
+        for name, mod in list(sys.modules.items()):
+            if mod is None or not (name == "robotools" or name.startswith("robotools.")):
+                continue
+            for obj in list(vars(mod).values()):
+                objs = [obj]
+                if isinstance(obj, type):
+                    objs += list(vars(obj).values())
+                for o in objs:
+                    o = getattr(o, "__func__", o)
+                    if callable(getattr(o, "cache_clear", None)) and o not in found:
+                        found.append(o)
+        _cached_functions = found
+    for f in _cached_functions:
+        try:
+            f.cache_clear()
+        except Exception:  # noqa
+            pass
